@@ -69,7 +69,7 @@ def spec_jobs(tier):
     ]
     if tier == "thorough":
         jobs += [
-            ("n3-deep", dict(ns="{3}", mp="{1}", mi="{3}", R=3)),
+            ("n3-deep", dict(ns="{3}", mp="{1}", mi="{3}", R=1)),
             ("n5-r3", dict(ns="{5}", mp="{2}", mi="{1, 2}", R=3)),
             ("n6", dict(ns="{6}", mp="{2, 3}", mi="{1, 2}", R=2)),
             ("n7", dict(ns="{7}", mp="{3}", mi="{2}", R=2)),
